@@ -237,8 +237,12 @@ def run_check(pid, tier, seed, workers, quiet=False):
         known_findings_reproduced=sorted(v['key'] for v in known),
         technique=getattr(driver, 'TECHNIQUE', ''),
     )
-    os.makedirs(os.path.join(ROOT, 'evidence'), exist_ok=True)
-    evpath = os.path.join(ROOT, 'evidence', f'{pid}.json')
+    evdir = os.path.join(ROOT, 'evidence')
+    if os.environ.get('VERIF_REPO', '/repo') != '/repo' or os.environ.get('VERIF_NO_EVIDENCE'):
+        # evidence committed under /verif must come from runs against /repo itself
+        evdir = os.path.join('/tmp', 'vf_scratch_evidence')
+    os.makedirs(evdir, exist_ok=True)
+    evpath = os.path.join(evdir, f'{pid}.json')
     with open(evpath, 'w') as f:
         json.dump(ev, f, indent=1, default=repr)
         f.write('\n')
